@@ -22,7 +22,7 @@ RULE = ("Enumerated product (complete in BOTH tiers, 'exhaustive': true) of entr
         "data=, __setitem__ (key and value side), slice assignment, setdefault, update(mapping), "
         "update(pairs), update(**kw), update(mapping, **kw), reset, append, extend, insert, +=} x "
         "target {root, nested dict, nested list, container at depth 3} x invalid item {non-str keys 1, "
-        "1.5, None, True, (1,2); values object(), set, complex, class instance, Decimal; for "
+        "1.5, None, True, (1,2); values object(), set, complex, class instance, Decimal and their falsy/empty variants (set(), frozenset(), 0j, Decimal(0), an instance with __len__ 0); for "
         "attribute-access families a dotted key, also inside a LIVE synced collection of a plain family "
         "passed as the value} x embedding {direct, in dict, in list, depth 2 both "
         "ways, depth 3, first/last among valid siblings} x 18 classes; plus Hypothesis-generated random "
@@ -48,9 +48,19 @@ class _Inst:
     pass
 
 
+class _FalsyInst:
+    """An unsupported object that is falsy and has length 0."""
+
+    def __len__(self):
+        return 0
+
+
 BAD_KEYS = {"k_int": 1, "k_float": 1.5, "k_none": None, "k_bool": True, "k_tuple": (1, 2)}
 BAD_VALS = {"v_object": object, "v_set": lambda: {1, 2}, "v_complex": lambda: 1j,
-            "v_instance": _Inst, "v_decimal": lambda: decimal.Decimal("1.5")}
+            "v_instance": _Inst, "v_decimal": lambda: decimal.Decimal("1.5"),
+            # falsy / empty variants: "nothing to validate" shortcuts must not let them through
+            "v_set_empty": set, "v_frozenset_empty": frozenset, "v_complex_zero": lambda: 0j,
+            "v_decimal_zero": lambda: decimal.Decimal(0), "v_falsy_instance": _FalsyInst}
 DOTTED = {"k_dotted": "a.b"}
 # a LIVE synced collection of a plain family that legitimately holds a dotted key: forbidden as a
 # value for the attribute-access families only
